@@ -426,9 +426,18 @@ func checkC13(c *core.Ctx) {
 		// in the numberNode case: the parse result must not be narrowed unchecked
 		ok := false
 		found := false
-		ast.Inspect(f.Body, func(m ast.Node) bool {
+		// the arm for a literal: in the evaluator or in the worker it delegates to
+		var bodies []ast.Node
+		for _, d := range declClosure(p, pkg, f, 2) {
+			if d != f && (d.Name.Name == "evaluateBitflagExpSigned" || d.Name.Name == "evaluateBitflagExprUnsigned") {
+				continue // the sibling evaluator has obligations of its own
+			}
+			bodies = append(bodies, d.Body)
+		}
+		for _, body := range bodies {
+		ast.Inspect(body, func(m ast.Node) bool {
 			cc, is := m.(*ast.CaseClause)
-			if !is || len(cc.List) != 1 || wire.Canon(cc.List[0]) != "numberNode" {
+			if !is || len(cc.List) != 1 || wire.Canon(cc.List[0]) != "numberNode" || found {
 				return true
 			}
 			found = true
@@ -468,6 +477,7 @@ func checkC13(c *core.Ctx) {
 			ok = !parse64 || rangeTest
 			return false
 		})
+		}
 		c.Check("R3", name+" does not narrow a flag literal without a range test", p.Pos(f.Pos()), found && ok,
 			"a literal is parsed as a 64-bit integer and converted with T(x): a value outside the enum's base type is silently truncated instead of rejected")
 	}
